@@ -2,6 +2,7 @@ package props
 
 import (
 	"bytes"
+	"encoding/hex"
 	"fmt"
 	"hash/fnv"
 	"io"
@@ -40,6 +41,31 @@ type c19NavStep struct {
 }
 
 type c19NavPath []c19NavStep
+
+// the path in the grammar of the driver op variant.nav
+func (p c19NavPath) token() string {
+	if len(p) == 0 {
+		return "-"
+	}
+	out := make([]string, len(p))
+	for i, s := range p {
+		if s.elems {
+			out[i] = "e"
+		} else {
+			out[i] = "k" + hex.EncodeToString([]byte(s.name))
+		}
+	}
+	return strings.Join(out, "/")
+}
+
+var c19LocLetter = map[variant.Loc]string{variant.LocMissing: "M", variant.LocNull: "N", variant.LocResidual: "R",
+	variant.LocTyped: "T", variant.LocTypedObject: "O", variant.LocTypedList: "L"}
+
+// L2 tie of the navigation: the shredding schema in the driver's grammar and the request queue
+type c19NavL2 struct {
+	stxt string
+	p    *c19Pending
+}
 
 func (p c19NavPath) String() string {
 	var sb strings.Builder
@@ -156,7 +182,8 @@ type c19NavFailure struct {
 
 // c19NavRead reads the file through NewVariantReader with cursors for the given paths (and, when
 // `full`, the whole shredded tree) and compares every window of every cursor with the oracle.
-func c19NavRead(data []byte, values []*c19Node, paths []c19NavPath, window int, full bool) (fail *c19NavFailure, err error) {
+func c19NavRead(data []byte, values []*c19Node, paths []c19NavPath, window int, full bool) (fail *c19NavFailure, obs map[string][]string, err error) {
+	obs = map[string][]string{} // path -> the entries seen (tag letter + value text), all windows in order
 	err = c19Guard(func() error {
 		f, err := parquet.OpenFile(bytes.NewReader(data), int64(len(data)))
 		if err != nil {
@@ -265,6 +292,7 @@ func c19NavRead(data []byte, values []*c19Node, paths []c19NavPath, window int, 
 							return nil
 						}
 						if x.v == nil {
+							obs[nc.path.String()] = append(obs[nc.path.String()], c19LocLetter[locs[e]])
 							if locs[e] != variant.LocMissing {
 								fail = &c19NavFailure{"path-not-missing " + kind, "the cursor shows a value at a path the value written does not have",
 									where(map[string]any{"entry": e, "row": base + x.row, "loc": locs[e].String()})}
@@ -284,7 +312,13 @@ func c19NavRead(data []byte, values []*c19Node, paths []c19NavPath, window int, 
 								where(map[string]any{"entry": e, "row": base + x.row, "want": want, "loc": locs[e].String()})}
 							return nil
 						}
-						if got := c19VText(v, true); got != want {
+						got := c19VText(v, true)
+						if locs[e] == variant.LocNull {
+							obs[nc.path.String()] = append(obs[nc.path.String()], "N")
+						} else {
+							obs[nc.path.String()] = append(obs[nc.path.String()], c19LocLetter[locs[e]]+got)
+						}
+						if got != want {
 							fail = &c19NavFailure{"path-value-changed " + kind, "the value the cursor shows at a path is not the value written there",
 								where(map[string]any{"entry": e, "row": base + x.row, "got": got, "want": want, "loc": locs[e].String()})}
 							return nil
@@ -310,7 +344,7 @@ func c19NavRead(data []byte, values []*c19Node, paths []c19NavPath, window int, 
 
 // c19CheckCursorPaths: path navigation on one written file against the rows written (`want`: the
 // sorted value text of every row, "<missing>" for a null row).
-func c19CheckCursorPaths(ctx *core.Ctx, data []byte, want []string, window int, sig string, detail func(map[string]any) map[string]any) {
+func c19CheckCursorPaths(ctx *core.Ctx, data []byte, want []string, window int, sig string, detail func(map[string]any) map[string]any, l2 *c19NavL2) {
 	values := make([]*c19Node, len(want))
 	h := fnv.New64a()
 	for i, w := range want {
@@ -341,7 +375,7 @@ func c19CheckCursorPaths(ctx *core.Ctx, data []byte, want []string, window int, 
 	}
 	for _, full := range modes {
 		ctx.Hist("shred.read", "cursor-paths")
-		fail, err := c19NavRead(data, values, paths, window, full)
+		fail, obs, err := c19NavRead(data, values, paths, window, full)
 		if err != nil {
 			key := "read-fails "
 			if strings.HasPrefix(err.Error(), "PANIC") {
@@ -356,5 +390,65 @@ func c19CheckCursorPaths(ctx *core.Ctx, data []byte, want []string, window int, 
 			return
 		}
 		ctx.HistN("shred.paths", fmt.Sprintf("navigated, whole tree projected=%v", full), int64(len(paths)))
+		if l2 != nil && !full {
+			c19NavL2Check(ctx, l2, paths, want, obs, seed, window, sig, detail)
+		}
+	}
+}
+
+// c19NavL2Check: L2 — the location tag and the value of every entry of some of the navigated paths
+// against the Lean MIRROR of the cursor (`navPathCur` over `rootWindow`, op variant.nav), row by row.
+func c19NavL2Check(ctx *core.Ctx, l2 *c19NavL2, paths []c19NavPath, want []string, obs map[string][]string, seed uint64, window int,
+	sig string, detail func(map[string]any) map[string]any) {
+	for _, w := range want {
+		if w == "<missing>" {
+			return
+		}
+	}
+	const maxL2 = 6
+	chosen := paths
+	if len(paths) > maxL2 {
+		chosen = nil
+		off := int(seed>>8) % len(paths)
+		for i := 0; i < maxL2; i++ {
+			chosen = append(chosen, paths[(off+i*len(paths)/maxL2)%len(paths)])
+		}
+	}
+	for _, path := range chosen {
+		path := path
+		answers := make([]string, len(want))
+		left := len(want)
+		for i, w := range want {
+			i := i
+			l2.p.add("variant.nav "+l2.stxt+" "+path.token()+" "+w, func(ans string) {
+				answers[i] = ans
+				left--
+				if left > 0 {
+					return
+				}
+				var model []string
+				for r, a := range answers {
+					f := strings.Fields(a)
+					if len(f) != 2 || f[0] != "ok" {
+						ctx.Fail("L2", "nav-model-error", "the cursor model does not answer", detail(map[string]any{"path": path.String(), "row": r, "model": a}))
+						return
+					}
+					if f[1] != "-" {
+						model = append(model, strings.Split(f[1], ";")...)
+					}
+				}
+				got := obs[path.String()]
+				if strings.Join(got, ";") != strings.Join(model, ";") {
+					kind := "field"
+					if path[len(path)-1].elems {
+						kind = "elements"
+					}
+					ctx.Fail("L2", "nav-entries "+kind+" "+sig, "the entries (location tag, value) the VariantReader cursor shows at a path are not the entries of the cursor mirror",
+						detail(map[string]any{"path": path.String(), "window": window, "cursor": strings.Join(got, ";"), "model": strings.Join(model, ";")}))
+					return
+				}
+				ctx.Hist("shred.l2", "cursor entries of a path compared")
+			})
+		}
 	}
 }
